@@ -668,7 +668,7 @@ func TestCheck(t *testing.T) {
 		ID: "C34", Level: "exploration",
 		Rule: "value set U = {0,1, 2^k-1,2^k,2^k+1 (k=0..64), 1000^j,1024^j (+-1, j=1..6), floor(L/m)+{-1,0,1,2} for L in {MaxUint64,MaxInt64,2^63,2^53} and every multiplier m, a few ordinary config values} (~390 values) and its signed closure. " +
 			"Families: (1) every value of the type's range in U through the written form -> UnmarshalText for SizeV1/SSizeV1 (MarshalText, String->Set), SizeV2/SSizeV2/Size/SSize (raw decimal integer, the form BurntSushi/toml writes) and Duration (MarshalText), and through a real BurntSushi toml Encode->Decode of a one-field struct: must be identical; " +
-			"(2) every string <pre><sign><digits><mid><suffix><post> with digits in U, sign in {'',-,+}, suffix over EVERY case variant of {'',b,X,Xb,Xib,Xi | X in k,m,g,t,p,e} (111 spellings), mid in {'',' '} (thorough: pre,mid,post in {'',' '}) for SizeV1,SSizeV1,SizeV2,SSizeV2 (aliases Size/SSize: digits<=2^32): accepted value must equal digits x documented multiplier exactly (math/big), an input whose exact product does not fit the type must be rejected, canonical spellings of in-range values <=2^53 must be accepted; " +
+			"(2) every string <pre><sign><digits><mid><suffix><post> with digits in U, sign in {'',-} (thorough: also +), suffix over EVERY case variant of {'',b,X,Xb,Xib,Xi | X in k,m,g,t,p,e} (111 spellings), mid in {'',' '} (thorough: pre,mid,post in {'',' '}) for SizeV1,SSizeV1,SizeV2,SSizeV2 (aliases Size/SSize: digits<=2^32): accepted value must equal digits x documented multiplier exactly (math/big), an input whose exact product does not fit the type must be rejected, canonical spellings of in-range values <=2^53 must be accepted; " +
 			"(3) fractional digit strings {1.5,0.5,2.25,1,024,...} x all suffixes; (4) ToInt/ToInt64/ToUint64 on every value; (5) Duration strings sign x digits x {ns,us,µs,ms,s,m,h}: overflow must be rejected. " +
 			"Cases are distinct by construction; non-trivial = every judged case (not-judged loose spellings that are rejected are excluded)",
 		Assumptions: []string{
@@ -754,9 +754,9 @@ func TestCheck(t *testing.T) {
 				}
 			}
 			// (2) suffix strings
-			blanks := []string{""}
+			blanks, signs := []string{""}, []string{"", "-"}
 			if c.Thorough() {
-				blanks = []string{"", " "}
+				blanks, signs = []string{"", " "}, []string{"", "-", "+"}
 			}
 			for _, d := range U {
 				if c.Expired() {
@@ -767,7 +767,7 @@ func TestCheck(t *testing.T) {
 					if st.alias && d.Cmp(small) > 0 {
 						continue
 					}
-					for _, sg := range []string{"", "-", "+"} {
+					for _, sg := range signs {
 						for _, base := range baseSuffixes {
 							// one shard unit = (digits, type, sign, base suffix); its spellings are evaluated together
 							blk++
